@@ -1053,8 +1053,33 @@ pub fn gen_big(p: &mut Prng, id: String) -> SimCase {
     let delay_ns = *p.pick(DELAYS);
     // half of the many-machine cases: copies of ONE machine per side, so that every machine acts, arms its
     // timer and fires at the same instants (index aliasing and fixed-size scratch buffers show at once)
-    let same = !long && p.chance(1, 2);
-    let (mc, ms): (Vec<Machine>, Vec<Machine>) = if same {
+    let variant = if long { 0 } else { p.below(3) };
+    let same = variant == 1;
+    let (mc, ms): (Vec<Machine>, Vec<Machine>) = if variant == 2 {
+        // two different busy machines at indices 32 or 64 apart on the big side, the others inert
+        use enum_map::enum_map;
+        let inert = Machine::new(0, 0.0, 0, 0.0, vec![maybenot::state::State::new(enum_map! { _ => vec![] })]).expect("inert");
+        let side = |p: &mut Prng, n: usize| -> Vec<Machine> {
+            let mut v: Vec<Machine> = (0..n).map(|_| inert.clone()).collect();
+            if n > 64 {
+                let i = p.below((n - 64) as u64) as usize;
+                v[i] = gen_sim_machine(p, true);
+                v[i + 64] = gen_sim_machine(p, true);
+            } else if n > 32 {
+                let i = p.below((n - 32) as u64) as usize;
+                v[i] = gen_sim_machine(p, true);
+                v[i + 32] = gen_sim_machine(p, true);
+            } else if n > 8 {
+                let i = p.below((n - 8) as u64) as usize;
+                v[i] = gen_sim_machine(p, true);
+                v[i + 8] = gen_sim_machine(p, true);
+            } else if n > 0 {
+                v[n - 1] = gen_sim_machine(p, true);
+            }
+            v
+        };
+        (side(p, nmc), side(p, nms))
+    } else if same {
         let a = gen_sim_machine(p, true);
         let b = gen_sim_machine(p, true);
         ((0..nmc).map(|_| a.clone()).collect(), (0..nms).map(|_| b.clone()).collect())
